@@ -80,6 +80,9 @@ func DrawOut(r *core.Run, hostileMode int, needURL bool) *Out {
 		hostile = true
 	}
 	o.Hostile = hostile
+	// the certificate of the key that signs may be outside its validity period at the SP clock (expired, or
+	// issued for later): the SP does not look at its own certificate's dates when it signs or publishes
+	certWindow := t.Int(8, "out.certwindow")
 	o.Std = NewStd(r)
 	s := o.Std
 	s.DrawClockKnobs()
@@ -91,6 +94,18 @@ func DrawOut(r *core.Run, hostileMode int, needURL bool) *Out {
 	nb, na := s.Epoch.Add(-40*24*time.Hour), s.Epoch.Add(800*24*time.Hour)
 	o.EncCert = world.MintCert(o.EncKey, nb, na, 1)
 	o.SigCert = world.MintCert(o.SigKey, nb, na, 2)
+	if certWindow == 1 || certWindow == 2 {
+		wnb, wna := s.Epoch.Add(-800*24*time.Hour), s.Epoch.Add(-400*24*time.Hour)
+		if certWindow == 2 {
+			wnb, wna = s.Epoch.Add(400*24*time.Hour), s.Epoch.Add(800*24*time.Hour)
+		}
+		if o.SigStyle != world.KeyNone {
+			o.SigCert = world.MintCert(o.SigKey, wnb, wna, 2)
+		} else {
+			o.EncCert = world.MintCert(o.EncKey, wnb, wna, 1)
+		}
+		r.Fault("sp_signing_certificate_outside_its_validity_period")
+	}
 	s.Cfg.EncStyle, s.Cfg.EncKeyIdx, s.Cfg.EncCert = o.EncStyle, o.EncKey, o.EncCert
 	s.Cfg.SigStyle, s.Cfg.SigKeyIdx, s.Cfg.SigCert = o.SigStyle, o.SigKey, o.SigCert
 	if o.SigStyle != world.KeyNone {
